@@ -918,3 +918,65 @@ def loop_continues_after_flag(ctx, key, body, site, field, desc, rule='K3-loop-e
             if site in body.reachable_from([set_t]):
                 ok = True
     return ctx.ob(key, rule, body.path, desc, ok, ('no branch on a load of %s' % field) if n == 0 else ('' if ok else 'once the flag is set the loop body is unreachable: queued work is abandoned'), body.loc(site))
+
+
+# ----------------------------------------------------------------------------- format templates (K8)
+
+def parse_fmt_template(s):
+    """decode the byte template of the current `format_args!` lowering (Arguments::new(template, args)):
+    <len><literal bytes> | 0xC0|opts [option bytes] (placeholder) ... 0x00.
+    returns list of ('lit', text) / ('arg', raw-option-bytes) or None if it does not parse."""
+    b = [ord(c) for c in s]
+    i = 0
+    out = []
+    try:
+        while i < len(b):
+            x = b[i]
+            if x == 0:
+                return out if i == len(b) - 1 else None
+            if x < 0x80:
+                lit = ''.join(chr(c) for c in b[i + 1:i + 1 + x])
+                if len(lit) != x:
+                    return None
+                out.append(('lit', lit))
+                i += 1 + x
+            elif x >= 0xC0:
+                n = 4 * (x & 1) + 2 * ((x >> 1) & 1) + 2 * ((x >> 2) & 1) + 2 * ((x >> 3) & 1)
+                out.append(('arg', tuple(b[i:i + 1 + n])))
+                i += 1 + n
+            else:
+                return None
+        return out
+    except IndexError:
+        return None
+
+
+def fmt_templates(body):
+    """all format templates used in a body: list of (block, token list)"""
+    res = []
+    for bi, blk in enumerate(body.blocks):
+        for s in blk['s']:
+            if s['k'] == 'assign' and s['r']['k'] == 'use' and 's' in s['r']['a'][0] and 'format string literal' in (s.get('mx') or ''):
+                tk = parse_fmt_template(s['r']['a'][0]['s'])
+                res.append((bi, tk, s['r']['a'][0]['s']))
+    # Arguments::from_str(const "...") form for templates without arguments
+    for bi, t in body.all_calls():
+        if call_matches(t, ["std::fmt::Arguments::<'a>::from_str"]) and t['a'] and 's' in t['a'][0]:
+            res.append((bi, [('lit', t['a'][0]['s'])], t['a'][0]['s']))
+    return res
+
+
+def str_consts(body):
+    """string literal constants appearing as operands in a body (not format templates)"""
+    out = []
+    for bi, blk in enumerate(body.blocks):
+        for s in blk['s']:
+            if s['k'] == 'assign' and s['r']['k'] in ('use',) and 's' in s['r']['a'][0] and 'format string literal' not in (s.get('mx') or ''):
+                if s['r']['a'][0].get('ty') in ('&str', '&&str'):
+                    out.append((bi, s['r']['a'][0]['s']))
+        t = blk['t']
+        if t['k'] == 'call':
+            for a in t['a']:
+                if a.get('ty') in ('&str', '&&str') and 's' in a:
+                    out.append((bi, a['s']))
+    return out
